@@ -12,7 +12,7 @@
 //!
 //! Line protocol (all numbers hexadecimal):
 //!   P <id> <ps> <max_cache> <flen> <fseed>      program header; initial file byte i = pat0(fseed, i)
-//!   <op> [~] | R <off>* | W <off>* | B <0|1>*    one call; ~ = do not compare the state picture;
+//!   <op> [~] | R <off>* | W <off>* | B <0|1>* [| H <result> <ns>]   one call; ~ = do not compare the state picture;
 //!                                                R = read-cache keys evicted by the call, W = offsets of the
 //!                                                backend writes in order, B = injected backend answers
 //!   E                                            end of program (final file hash)
@@ -617,6 +617,8 @@ fn oracle_str(before: &VCacheState, after: &VCacheState, op: &Op, out: &CallOut)
     for k in &out.boks {
         let _ = write!(t, " {}", u8::from(*k));
     }
+    // hint for choosing the unobservable part of the oracle (`giveup`): the result and next_eviction_stripe seen
+    let _ = write!(t, " | H {} {:x}", out.res, after.next_eviction_stripe);
     t
 }
 
